@@ -216,6 +216,7 @@ func run(c *vf.Ctx) {
 		racePass(c)
 		return
 	}
+	vrt.ReleasePoints = true
 	tot := &totals{}
 	si, sn := vf.ShardOf()
 	for idx, sc := range all {
